@@ -30,7 +30,7 @@ REQUIRED = ['qstar_consistent', 'score_rowwise', 'score_identity', 'score_equati
             'score_equations_crossfit', 'plugin_def', 'plugin_targets', 'ate_def', 'targets_range', 'plugin_range',
             'range_binary', 'range_binary_closed', 'unbound_range', 'range_continuous', 'range_crossfit',
             'unit_bounds_range', 'unit_roundtrip', 'unit_roundtrip_clip', 'expit_real_range',
-            'expit_real_strictMono', 'expit_logit_real', 'range_binary_real', 'score_equations_real']
+            'expit_real_strictMono', 'expit_logit_real', 'range_binary_real', 'score_equations_real', 'tmle_fit_generated_binary', 'tmle_fit_generated_continuous', 'tmle_fit_generated_useMiss']
 RULE = ('TMLE.fit: every cell of outcome {binary, continuous} x outcome missingness {none, missing without model, '
         'missing with missing_model} x g truncation {none, symmetric, asymmetric} x covariates {categorical only, '
         'categorical + continuous}, with alpha, continuous_bound, outcome-model bound, missing-model bound, GLM family '
@@ -275,6 +275,11 @@ def check_tmle_case(chk, drv, cfg, dseed):
         chk.k(ok, 'tmle model vs TMLE.fit (%s)' % cfg['outcome'],
               {'case': case, 'mismatch': [k for k, v in detail.items() if not v], 'status': rep.get('status'),
                'err': rep.get('err')})
+        if rep['status'] == 'ok':
+            # the definition generated from the text of TMLE.fit (Gen.tmle_fit_*), run on the same inputs
+            bad = [key for key, v in pairs if not close(unfx(rep['g' + key]), float(v), rtol=RT, atol=1e-12)]
+            chk.k(not bad, 'TMLE.fit = definition generated from its source (%s)' % cfg['outcome'],
+                  {'case': case, 'mismatch': bad})
         if cont:
             rep, _ = drv.ask('unit', y=fl_list(np.where(np.isnan(y_in), 0.0, y_in)), mini=fx(lo), maxi=fx(hi),
                              cb=fx(cfg['cb']))
